@@ -30,7 +30,9 @@ from ..headers import httpHeaders
 from ..methods import httpMethods
 from ..exception import HttpProtocolException, ProxyConnectionFailed
 from ..protocols import httpProtocols
-from ..responses import PROXY_TUNNEL_ESTABLISHED_RESPONSE_PKT
+from ..responses import (
+    BAD_REQUEST_RESPONSE_PKT, PROXY_TUNNEL_ESTABLISHED_RESPONSE_PKT,
+)
 from ...common.pki import gen_csr, sign_csr, gen_public_key
 from ...core.event import eventNames
 from ...common.flag import flags
@@ -448,7 +450,18 @@ class HttpProxyPlugin(HttpProtocolHandlerPlugin):
                     self.pipeline_request = HttpParser(
                         httpParserTypes.REQUEST_PARSER,
                     )
-                self.pipeline_request.parse(raw)
+                try:
+                    self.pipeline_request.parse(raw)
+                except HttpProtocolException as e:  # noqa: WPS329
+                    # Same treatment as the 1st request gets,
+                    # see HttpProtocolHandler._parse_first_request
+                    self.client.queue(BAD_REQUEST_RESPONSE_PKT)
+                    raise e
+                except Exception as e:
+                    self.client.queue(BAD_REQUEST_RESPONSE_PKT)
+                    raise HttpProtocolException(
+                        'Error when parsing request: %r' % raw.tobytes(),
+                    ) from e
                 if self.pipeline_request.is_complete:
                     for plugin in self.plugins.values():
                         assert self.pipeline_request is not None
